@@ -1064,6 +1064,66 @@ pub fn replay(v: &serde_json::Value) -> Result<Option<String>, String> {
 /// For C11 (a client can always match responses to its requests): connections that end with bytes
 /// still unconsumed - requests pipelined behind quit / quitq / an undefined opcode - followed by
 /// a fresh connection that sends one noop and must receive exactly that noop's answer.
+/// A client that arrives while every connection slot is taken (limit 1 or 2, the holders idle):
+/// silent or with a request already sent, it receives nothing it cannot match to a request of its
+/// own - no frame before it has sent one, and for a request it has sent exactly one response with
+/// that request's opcode and opaque (while it waits, or once a holder has left).
+fn run_full_server(limit: u32, send_early: bool, kind: usize) -> Result<Option<(String, String)>, String> {
+    let req = match kind {
+        0 => Req::bare(op::NOOP).opaque(0x5151_0001),
+        1 => Req::get(op::GET, b"missing").opaque(0x5151_0002),
+        2 => Req::store(op::SET, b"w", b"1", 7, 0, 0).opaque(0x5151_0003),
+        _ => Req::bare(op::VERSION).opaque(0x5151_0004),
+    };
+    let w = net::NetWorld::new(NetCfg { conn_limit: limit, ..Default::default() })?;
+    let mut holders = vec![];
+    for i in 0..limit {
+        let mut h = w.connect()?;
+        h.step(&w, &Req::bare(op::NOOP).opaque(0x100 + i).bytes())?;
+        if wire::split_responses(&h.got).0.len() != 1 {
+            return Err(format!("holder {} of {} was not served", i, limit));
+        }
+        holders.push(h);
+    }
+    let name = format!("limit={} client arriving at a full server, {} {}", limit, if send_early { "sending at once" } else { "silent until a slot is free, then sending" }, wire::op_name(req.opcode));
+    let mut waiter = w.connect()?;
+    if send_early {
+        let _ = waiter.step(&w, &req.bytes());
+    }
+    w.settle();
+    waiter.pump();
+    let judge = |got: &[u8], sent: bool, when: &str| -> Option<(String, String)> {
+        let (resps, residue) = wire::split_responses(got);
+        if !sent && !got.is_empty() {
+            return Some((
+                "extra-response|full-server|before-any-request".into(),
+                format!("{}: {} received {} bytes without having sent a request: {:?}", name, when, got.len(), resps.iter().map(|r| r.short()).collect::<Vec<_>>()),
+            ));
+        }
+        if residue != 0 || resps.len() > 1 || resps.iter().any(|r| r.opcode != req.opcode || r.opaque != req.opaque) {
+            return Some((
+                "frame|full-server|not-the-request's-own".into(),
+                format!("{}: {} the one request sent was answered {:?} (+{} stray bytes) - expected at most one response, with opcode {:#x} and opaque {:#x}", name, when, resps.iter().map(|r| r.short()).collect::<Vec<_>>(), residue, req.opcode, req.opaque),
+            ));
+        }
+        None
+    };
+    if let Some(v) = judge(&waiter.got, send_early, "while waiting") {
+        return Ok(Some(v));
+    }
+    holders[0].close(&w);
+    w.settle();
+    if !send_early {
+        let _ = waiter.step(&w, &req.bytes());
+    }
+    w.settle();
+    waiter.pump();
+    if let Some(v) = judge(&waiter.got, true, "after a holder left") {
+        return Ok(Some(v));
+    }
+    Ok(None)
+}
+
 pub fn correlation_across_connections(_tier: Tier, threads: usize) -> (u64, Vec<(String, String)>, Option<String>) {
     let alpha = alphabet();
     let n = alpha.len();
@@ -1101,7 +1161,27 @@ pub fn correlation_across_connections(_tier: Tier, threads: usize) -> (u64, Vec<
             }
         }
     }
-    (streams.len() as u64, viol, err)
+    let mut full: Vec<(u32, bool, usize)> = vec![];
+    for limit in [1u32, 2] {
+        for early in [false, true] {
+            for kind in 0..4usize {
+                full.push((limit, early, kind));
+            }
+        }
+    }
+    let fres = par_map(&full, threads, |_, (l, e, k)| run_full_server(*l, *e, *k));
+    for r in fres {
+        match r {
+            Err(e) => err = Some(e),
+            Ok(Some((sig, what))) => {
+                if !viol.iter().any(|v| v.0 == sig) {
+                    viol.push((sig, what));
+                }
+            }
+            Ok(None) => {}
+        }
+    }
+    ((streams.len() + full.len()) as u64, viol, err)
 }
 
 pub fn backpressure(tier: Tier) -> (u64, Vec<(String, String)>, Option<String>) {
